@@ -111,10 +111,10 @@ func (p V4) Get(code byte) (data []byte, n int) {
 
 func (p V4) Has(code byte) bool { _, n := p.Get(code); return n > 0 }
 
-// MsgType returns the DHCP message type, -1 if absent or not exactly one byte.
+// MsgType returns the DHCP message type, -1 if absent or not exactly one byte in all.
 func (p V4) MsgType() int {
 	d, n := p.Get(53)
-	if n != 1 || len(d) != 1 {
+	if n < 1 || len(d) != 1 { // repeated instances are one option (RFC 3396 concatenation)
 		return -1
 	}
 	return int(d[0])
